@@ -42,13 +42,13 @@ Print Assumptions C13_prod_to_sum_ring.
    (z^v - z^-v)^b (z^v + z^-v)^c and the translated divisor is i^b 2^(c+b): the quotient is
    sin^b(v) cos^c(v) written with z = exp(i). *)
 Theorem C13_prod_to_sum :
-  forall (R : cring) (Iu : R) (e : Z -> R),
+  forall (R : cring) (Iu : R) (tn : bool) (e : Z -> R),
     e 0%Z = r1 -> (forall m n, e (m + n)%Z = rmul (e m) (e n)) ->
     forall (b c : nat) (v : Z),
       let L := dirac R v in
-      get_trig_moment_num R Iu (mom_of R L) (tf_of e L) (dtf_of e Iu L) [("Sin", b); ("Cos", c)]
+      get_trig_moment_num R Iu tn (mom_of R L) (tf_of e L) (dtf_of e Iu L) [("Sin", b); ("Cos", c)]
       = rmul (rpow (rsub (e v) (e (- v)%Z)) b) (rpow (radd (e v) (e (- v)%Z)) c)
-      /\ get_trig_moment_den R Iu (mom_of R L) (tf_of e L) (dtf_of e Iu L) [("Sin", b); ("Cos", c)]
+      /\ get_trig_moment_den R Iu tn (mom_of R L) (tf_of e L) (dtf_of e Iu L) [("Sin", b); ("Cos", c)]
          = rmul (rpow Iu b) (rpow (zr 2) (c + b)).
 Proof. exact prod_to_sum_gen. Qed.
 Print Assumptions C13_prod_to_sum.
@@ -62,15 +62,15 @@ Print Assumptions C13_prod_to_sum.
      translated numerator (dist.get_moment, dist.cf and its formal t-derivatives being those of L)
        = translated divisor * sum_j p_j v_j^a sin(v_j)^b cos(v_j)^c. *)
 Theorem C13_trig_moment_discrete_exact :
-  forall (R : cring) (Iu : R) (e : Z -> R),
+  forall (R : cring) (Iu : R) (tn : bool) (e : Z -> R),
     e 0%Z = r1 -> (forall m n, e (m + n)%Z = rmul (e m) (e n)) ->
     forall (sn cs : Z -> R),
       (forall v, rmul (rmul (zr 2) Iu) (sn v) = rsub (e v) (e (- v)%Z)) ->
       (forall v, rmul (zr 2) (cs v) = radd (e v) (e (- v)%Z)) ->
       forall (L : zlaw R) (fp : fdict),
         Ez L (fun _ => r1) = r1 ->
-        get_trig_moment_num R Iu (mom_of R L) (tf_of e L) (dtf_of e Iu L) fp
-        = rmul (get_trig_moment_den R Iu (mom_of R L) (tf_of e L) (dtf_of e Iu L) fp)
+        get_trig_moment_num R Iu tn (mom_of R L) (tf_of e L) (dtf_of e Iu L) fp
+        = rmul (get_trig_moment_den R Iu tn (mom_of R L) (tf_of e L) (dtf_of e Iu L) fp)
                (Ez L (fun v => rmul (rmul (rpow (zr v) (fget "Id" fp)) (rpow (sn v) (fget "Sin" fp)))
                                     (rpow (cs v) (fget "Cos" fp)))).
 Proof. exact trig_moment_discrete_exact. Qed.
@@ -210,10 +210,10 @@ Print Assumptions C13_dispatch_mixed_decided_by_witness.
 Theorem C13_dispatch_refuted_if_witness_trig :
   get_func_moment mixed_witness = DTrig ->
   exists fp, has_trig fp = true /\ has_exp fp = true /\ get_func_moment fp = DTrig /\
-    forall (R : cring) (Iu : R) (mom : nat -> R) (cf : Z -> R) (dcf : nat -> Z -> R),
+    forall (R : cring) (Iu : R) (tn : bool) (mom : nat -> R) (cf : Z -> R) (dcf : nat -> Z -> R),
       (* the answer is that of the request without the Exp power *)
-      get_trig_moment_num R Iu mom cf dcf fp = get_trig_moment_num R Iu mom cf dcf [("Sin", 1%nat)] /\
-      get_trig_moment_den R Iu mom cf dcf fp = get_trig_moment_den R Iu mom cf dcf [("Sin", 1%nat)].
+      get_trig_moment_num R Iu tn mom cf dcf fp = get_trig_moment_num R Iu tn mom cf dcf [("Sin", 1%nat)] /\
+      get_trig_moment_den R Iu tn mom cf dcf fp = get_trig_moment_den R Iu tn mom cf dcf [("Sin", 1%nat)].
 Proof. exact dispatch_refuted_if_witness_trig. Qed.
 Print Assumptions C13_dispatch_refuted_if_witness_trig.
 
@@ -242,13 +242,13 @@ Print Assumptions C13_convert_exact.
 
 (* Gaussian rationals, e m = i^m (angle pi/2): all hypotheses of the main theorem hold *)
 Example C13_trig_model_instance :
-  forall (L : zlaw G) (fp : fdict),
+  forall (tn : bool) (L : zlaw G) (fp : fdict),
     Ez L (fun _ => r1) = r1 ->
-    get_trig_moment_num G gi (mom_of G L) (tf_of e4 L) (dtf_of e4 gi L) fp
-    = rmul (get_trig_moment_den G gi (mom_of G L) (tf_of e4 L) (dtf_of e4 gi L) fp)
+    get_trig_moment_num G gi tn (mom_of G L) (tf_of e4 L) (dtf_of e4 gi L) fp
+    = rmul (get_trig_moment_den G gi tn (mom_of G L) (tf_of e4 L) (dtf_of e4 gi L) fp)
            (Ez L (fun v => rmul (rmul (rpow (zr v) (fget "Id" fp)) (rpow (sn4 v) (fget "Sin" fp)))
                                 (rpow (cs4 v) (fget "Cos" fp)))).
-Proof. exact (trig_moment_discrete_exact G gi e4 e4_0 e4_add sn4 cs4 sn4_def cs4_def). Qed.
+Proof. exact (fun tn => trig_moment_discrete_exact G gi tn e4 e4_0 e4_add sn4 cs4 sn4_def cs4_def). Qed.
 
 (* X ~ DiscreteUniform(-1, 2) at angle pi/2, request X sin(X), evaluated by the kernel:
    num = den * E[X sin X] with E = (1/4)(-1 * -1 + 0 + 1 * 1 + 0) = 1/2, den = i^2 * 2 = -2;
@@ -256,8 +256,9 @@ Proof. exact (trig_moment_discrete_exact G gi e4 e4_0 e4_add sn4 cs4 sn4_def cs4
    E = (1/4)(0 + 0 + 0 + 4) = 1, den = i^2 * 4 = -4 *)
 Example C13_trig_model_run :
   let L : zlaw G := du_law G (gq (mkq 1 4)) (-1)%Z 4 in
-  let num fp := get_trig_moment_num G gi (mom_of G L) (tf_of e4 L) (dtf_of e4 gi L) fp in
-  let den fp := get_trig_moment_den G gi (mom_of G L) (tf_of e4 L) (dtf_of e4 gi L) fp in
+  let tn := false in
+  let num fp := get_trig_moment_num G gi tn (mom_of G L) (tf_of e4 L) (dtf_of e4 gi L) fp in
+  let den fp := get_trig_moment_den G gi tn (mom_of G L) (tf_of e4 L) (dtf_of e4 gi L) fp in
   reqb (num [("Id", 1%nat); ("Sin", 1%nat)]) (gq (mkq (-1) 1)) = true
   /\ reqb (den [("Id", 1%nat); ("Sin", 1%nat)]) (gq (mkq (-2) 1)) = true
   /\ reqb (num [("Id", 2%nat); ("Cos", 2%nat)]) (gq (mkq (-4) 1)) = true
